@@ -928,7 +928,13 @@ class Interp:
                 continue
             kv = self.eval(ctx, env, k)
             vv = self.eval(ctx, env, v)
-            hk = hkey(kv)
+            try:
+                hk = hkey(kv)
+            except Unsupported:
+                if len(n.keys) != 1:
+                    raise
+                d.sym.insert(0, [kv, vv])      # a single entry with a symbolic key
+                continue
             d.items[hk] = vv
             d.keyvals[hk] = kv
         return d
